@@ -56,6 +56,19 @@ def prog_foreach_hang(rng, par=2):
     return Program(steps, outs, gen.BASE_INPUT), scripts, "foreach_hang"
 
 
+def prog_foreach_partial(rng):
+    """A loop one item of which has already failed when the run is cancelled while another item is still executing."""
+    sub = gen.sub_program("sub.yaml", 1)
+    n = 3  # base_input() supplies the items i0..i2
+    steps = [Step("loop", "foreach", sub=sub, items=Expr(In("items")), parallelism=rng.choice([2, 3, 4]))]
+    scripts = gen.make_scripts(steps, {})
+    by_tag = {"i%d" % k: {"outcome": "hang", "on_cancel": rng.choice(["error", "success"])} for k in range(1, n)}
+    by_tag["i0"] = {"outcome": rng.choice(["crash", "error"])}
+    scripts["sub_w0"]["exec_by_tag"] = by_tag
+    outs = {"success": {"d": Expr(Ref("loop", "outputs", "success", "data"))}, "failed": {"e": Expr(Ref("loop", "failed", "error"))}}
+    return Program(steps, outs, gen.BASE_INPUT), scripts, "foreach_partial/n=%d" % n
+
+
 def prog_late_result(rng):
     """A never-ending step that answers the cancel signal with an output which other steps (a loop, a plugin step, a wait_for
     consumer) are waiting for: their input arrives only because the run is cancelled, while they are being closed."""
@@ -90,7 +103,7 @@ def prog_finishing(rng, shape):
 
 
 NEVER_ENDING = [lambda rng: prog_chain_hang(rng, "obey"), lambda rng: prog_chain_hang(rng, "ignore"), lambda rng: prog_chain_hang(rng, "nohandler"),
-                lambda rng: prog_chain_hang(rng, "success"), prog_parallel_hang, prog_deploy_blocks, prog_foreach_hang, prog_late_result]
+                lambda rng: prog_chain_hang(rng, "success"), prog_parallel_hang, prog_deploy_blocks, prog_foreach_hang, prog_late_result, prog_foreach_partial]
 FINISHING = ["chain", "diamond", "fan_in", "wait_for", "deploy_expr", "enabled", "foreach", "foreach_after", "random_dag"]
 
 
